@@ -416,6 +416,19 @@ func (w *c07Walker) list(n ast.Node, env, loops []string, start int, after *insP
 			w.add("unused-let", "shadowed:"+what, func() {
 				insertAt(l, i, &ast.LetValueNode{Name: "zzU", Expr: intLitNode(1)}, &ast.LetValueNode{Name: "zzU", Expr: intLitNode(2)}, printRef("zzU"))
 			})
+			// a let that re-uses a name already bound (a used param, an enclosing let or loop variable) and is never
+			// used itself: usedness is per binder, not per name
+			for qi, q := range bound {
+				if qi >= 2 {
+					break
+				}
+				if q != "ij" {
+					q := q
+					w.add("unused-let", "rebinding-a-bound-name:"+what, func() {
+						insertAt(l, i, &ast.LetValueNode{Name: q, Expr: intLitNode(1)})
+					})
+				}
+			}
 			for _, q := range bound {
 				if !has(loops, q) && q != "ij" {
 					q := q
@@ -522,6 +535,59 @@ func (w *c07Walker) node(n ast.Node, env, loops []string, here, after, outer *in
 		w.add("undeclared-call-param", "call", func() {
 			n.Params = append(n.Params, &ast.CallParamValueNode{Key: "zzQ", Value: intLitNode(1)})
 		})
+		{
+			// a param that someone else declares -- the caller, or any other template -- but the callee does not
+			declares := func(ps []c07Param, x string) bool {
+				for _, p := range ps {
+					if p.name == x {
+						return true
+					}
+				}
+				return false
+			}
+			passes := func(x string) bool {
+				for _, p := range n.Params {
+					switch p := p.(type) {
+					case *ast.CallParamValueNode:
+						if p.Key == x {
+							return true
+						}
+					case *ast.CallParamContentNode:
+						if p.Key == x {
+							return true
+						}
+					}
+				}
+				return false
+			}
+			if callee, known := w.callees[n.Name]; known {
+				for _, x := range w.params {
+					if !declares(callee, x) && !passes(x) {
+						x := x
+						w.add("undeclared-call-param", "call:name-of-a-caller-param", func() {
+							n.Params = append(n.Params, &ast.CallParamValueNode{Key: x, Value: intLitNode(1)})
+						})
+						break
+					}
+				}
+				var others []string
+				for name := range w.callees {
+					others = append(others, name)
+				}
+				sort.Strings(others)
+			outer:
+				for _, name := range others {
+					for _, p := range w.callees[name] {
+						if x := p.name; !declares(callee, x) && !passes(x) && !has(w.params, x) {
+							w.add("undeclared-call-param", "call:name-of-another-template's-param", func() {
+								n.Params = append(n.Params, &ast.CallParamValueNode{Key: x, Value: intLitNode(1)})
+							})
+							break outer
+						}
+					}
+				}
+			}
+		}
 		if n.Data != nil {
 			w.exprSite("call-data-expr", func() ast.Node { return n.Data }, func(e ast.Node) { n.Data = e })
 		}
@@ -577,6 +643,60 @@ func c07Calls(n ast.Node, into map[string]bool) {
 	if p, ok := n.(ast.ParentNode); ok {
 		for _, c := range p.Children() {
 			c07Calls(c, into)
+		}
+	}
+}
+
+// c07SelfAllCall: the tree contains a data="all" call of the template `name`.  A param added to such a
+// template is declared by the callee too, so data="all" forwards it: by the rules it is used.
+func c07SelfAllCall(n ast.Node, name string) bool {
+	if n == nil {
+		return false
+	}
+	if c, ok := n.(*ast.CallNode); ok && c.AllData && c.Name == name {
+		return true
+	}
+	if p, ok := n.(ast.ParentNode); ok {
+		for _, c := range p.Children() {
+			if c07SelfAllCall(c, name) {
+				return true
+			}
+		}
+	}
+	return false
+}
+
+// c07BoundNames collects the names that {let}s and loops bind anywhere in the tree.
+func c07BoundNames(n ast.Node, into map[string]bool) {
+	if n == nil {
+		return
+	}
+	switch x := n.(type) {
+	case *ast.LetValueNode:
+		into[x.Name] = true
+	case *ast.LetContentNode:
+		into[x.Name] = true
+	case *ast.ForNode:
+		into[x.Var] = true
+	}
+	if p, ok := n.(ast.ParentNode); ok {
+		for _, c := range p.Children() {
+			c07BoundNames(c, into)
+		}
+	}
+}
+
+// c07AllCallees: the templates the tree calls with data="all".
+func c07AllCallees(n ast.Node, into map[string]bool) {
+	if n == nil {
+		return
+	}
+	if c, ok := n.(*ast.CallNode); ok && c.AllData {
+		into[c.Name] = true
+	}
+	if p, ok := n.(ast.ParentNode); ok {
+		for _, c := range p.Children() {
+			c07AllCallees(c, into)
 		}
 	}
 }
@@ -649,8 +769,8 @@ func c07Sites(files []*ast.SoyFileNode) []c07Site {
 		}
 		c07Calls(t.node.Body, called)
 	}
-	for _, t := range ts {
-		t := t
+	for ti, t := range ts {
+		ti, t := ti, t
 		w.params = nil
 		for _, p := range t.params {
 			w.params = append(w.params, p.name)
@@ -685,24 +805,94 @@ func c07Sites(files []*ast.SoyFileNode) []c07Site {
 				addDoc(name)
 			}
 		}
-		w.add("unused-param", style, func() { addParam("zzP") })
-		w.add("unused-param", style+":use-captured-by-let", func() {
-			addParam("zzP")
-			nh := t.nhead
-			if nh > 0 {
-				nh++
+		// a template that calls itself with data="all" forwards every param to itself: a new param is used, not a violation
+		selfAll := c07SelfAllCall(t.node, t.node.Name)
+		if !selfAll {
+			w.add("unused-param", style, func() { addParam("zzP") })
+		}
+		if !selfAll {
+			w.add("unused-param", style+":use-captured-by-let", func() {
+				addParam("zzP")
+				nh := t.nhead
+				if nh > 0 {
+					nh++
+				}
+				insertAt(t.node.Body, nh, &ast.LetValueNode{Name: "zzP", Expr: intLitNode(1)}, printRef("zzP"))
+			})
+		}
+		if !selfAll {
+			w.add("unused-param", style+":use-captured-by-loop", func() {
+				addParam("zzP")
+				nh := t.nhead
+				if nh > 0 {
+					nh++
+				}
+				insertAt(t.node.Body, nh, &ast.ForNode{Var: "zzP", List: &ast.ListLiteralNode{Items: []ast.Node{intLitNode(1)}},
+					Body: &ast.ListNode{Nodes: []ast.Node{printRef("zzP")}}})
+			})
+		}
+		// names that OTHER templates of the bundle declare or bind: the checker's per-template state (params, variables
+		// in scope, used keys) must not leak from one template to the next, in either order
+		{
+			local := map[string]bool{"ij": true}
+			for _, p := range t.params {
+				local[p.name] = true
 			}
-			insertAt(t.node.Body, nh, &ast.LetValueNode{Name: "zzP", Expr: intLitNode(1)}, printRef("zzP"))
-		})
-		w.add("unused-param", style+":use-captured-by-loop", func() {
-			addParam("zzP")
-			nh := t.nhead
-			if nh > 0 {
-				nh++
+			c07BoundNames(t.node.Body, local)
+			allCallees := map[string]bool{}
+			c07AllCallees(t.node.Body, allCallees)
+			forwarded := func(x string) bool {
+				for c := range allCallees {
+					for _, p := range w.callees[c] {
+						if p.name == x {
+							return true
+						}
+					}
+				}
+				return false
 			}
-			insertAt(t.node.Body, nh, &ast.ForNode{Var: "zzP", List: &ast.ListLiteralNode{Items: []ast.Node{intLitNode(1)}},
-				Body: &ast.ListNode{Nodes: []ast.Node{printRef("zzP")}}})
-		})
+			seenP, seenV := 0, 0
+			for oi, o := range ts {
+				if o.node == t.node {
+					continue
+				}
+				pos := "earlier"
+				if oi > ti {
+					pos = "later"
+				}
+				for _, p := range o.params {
+					x := p.name
+					if local[x] || seenP >= 2 {
+						continue
+					}
+					seenP++
+					local[x] = true
+					w.add("undeclared-name", "template-end:param-of-"+pos+"-template", func() {
+						insertAt(t.node.Body, len(t.node.Body.Nodes), printRef(x))
+					})
+					if !forwarded(x) && !selfAll {
+						w.add("unused-param", style+":name-used-by-"+pos+"-template", func() { addParam(x) })
+					}
+				}
+				vs := map[string]bool{}
+				c07BoundNames(o.node.Body, vs)
+				var names []string
+				for x := range vs {
+					names = append(names, x)
+				}
+				sort.Strings(names)
+				for _, x := range names {
+					if local[x] || seenV >= 2 {
+						continue
+					}
+					seenV++
+					local[x] = true
+					w.add("undeclared-name", "template-end:variable-of-"+pos+"-template", func() {
+						insertAt(t.node.Body, len(t.node.Body.Nodes), printRef(x))
+					})
+				}
+			}
+		}
 		w.add("soydoc-and-header-params", style, func() {
 			switch {
 			case t.nhead > 0:
@@ -798,6 +988,18 @@ func c07Judge(e *env, pend []c07Pending, reqs []string) {
 		if p.valid && r[3] != "#1" {
 			e.res.Fail(hx.Violation{Kind: "mismatch", What: "a parsed template does not have the shape the theorems assume (registry_shaped)", Case: p.c}, "")
 		}
+		if len(r) >= 7 {
+			// the two Coq models of CheckDataRefs (Model/Checker.v of C07, Model/Compile.v of C13) are proved equal
+			// (C07_checker_models_agree) on registries whose map literals list their items by increasing key
+			if r[6] != "#1" {
+				e.res.Fail(hx.Violation{Kind: "mismatch", What: "a parsed map literal does not list its items by increasing key (registry_maps_sorted)", Case: p.c}, "")
+			}
+			e.res.Histogram["second-model:"+strings.SplitN(r[5], ":", 2)[0]]++
+			if r[5] != r[0] {
+				e.res.Fail(hx.Violation{Kind: "mismatch", What: "the two models of Registry.Add + CheckDataRefs (Model/Checker.v, Model/Compile.v) give different verdicts", Case: p.c,
+					Expected: r[0], Observed: r[5]}, "")
+			}
+		}
 		known := ""
 		if p.c.Injected == "loopfunc-on-nonloop" {
 			known = "loopfunc-on-nonloop-accepted"
@@ -853,6 +1055,9 @@ func c07Render(e *env, files []srcFile, tmpls []*gtemplate, o progOpts, trees []
 		e.res.Fail(hx.Violation{Kind: "mismatch", What: "model cannot judge the registry", Case: c07Case{Files: files}, Observed: fmt.Sprint(jr)}, "")
 		return
 	}
+	if len(jr) >= 6 && (jr[4] != jr[0] || jr[5] != "#1") {
+		e.res.Fail(hx.Violation{Kind: "mismatch", What: "the two models of CheckDataRefs disagree on the compiled registry, or a map literal is not listed by increasing key", Case: c07Case{Files: files}, Observed: fmt.Sprint(jr)}, "")
+	}
 	if jr[0] != "accept" || jr[1] != "#1" || jr[2] != "#1" {
 		e.res.Fail(hx.Violation{Kind: "mismatch", What: "the compiled registry of an accepted bundle is not accepted / well-formed / shaped for the model", Case: c07Case{Files: files}, Observed: fmt.Sprint(jr)}, "")
 	}
@@ -862,11 +1067,36 @@ func c07Render(e *env, files []srcFile, tmpls []*gtemplate, o progOpts, trees []
 	} else {
 		e.res.Histogram["render:calls-partial"]++
 	}
-	declared := map[string]bool{}
+	// the params a render of template `name` may miss: those declared by the templates its calls can reach
+	// (the hook reports the key only, not the executing template; the model's refined counter is exact)
+	byName := map[string]c07Tmpl{}
 	for _, t := range c07Templates(trees) {
-		for _, p := range t.params {
-			declared[p.name] = true
+		if _, dup := byName[t.node.Name]; !dup {
+			byName[t.node.Name] = t
 		}
+	}
+	declaredFrom := func(name string) map[string]bool {
+		declared := map[string]bool{}
+		seen := map[string]bool{}
+		todo := []string{name}
+		for len(todo) > 0 {
+			n := todo[0]
+			todo = todo[1:]
+			t, ok := byName[n]
+			if seen[n] || !ok {
+				continue
+			}
+			seen[n] = true
+			for _, p := range t.params {
+				declared[p.name] = true
+			}
+			cs := map[string]bool{}
+			c07Calls(t.node.Body, cs)
+			for c := range cs {
+				todo = append(todo, c)
+			}
+		}
+		return declared
 	}
 	for _, t := range tmpls {
 		d := genData(e.rng, t.params, o)
@@ -888,6 +1118,7 @@ func c07Render(e *env, files []srcFile, tmpls []*gtemplate, o progOpts, trees []
 				Expected: "no unbound lookup", Observed: fmt.Sprint(missed)}, "")
 		}
 		if !total {
+			declared := declaredFrom(t.full())
 			for _, k := range missed {
 				if !declared[k] {
 					e.res.Fail(hx.Violation{Kind: "oracle", What: "rendering an accepted template looks up a name that is neither bound nor a declared param", Case: pc,
@@ -908,6 +1139,20 @@ func c07Render(e *env, files []srcFile, tmpls []*gtemplate, o progOpts, trees []
 				}
 			} else {
 				e.res.Histogram["render:model-outcome-differs-or-outside-model"]++
+			}
+		}
+		// the refined counter of the model (misses of declared params of the executing template are not counted):
+		// 0 on every accepted bundle (C07_accepted_no_unbound_lookup), whatever the calls pass
+		rx := e.m.Call("render_x", key, sx(t.full()), "#4000", "(vm 0 (x6b (vi 1)))", ";", dsx)
+		if len(rx) >= 2 && len(r) >= 5 {
+			e.res.Histogram["render_x:"+rx[0]]++
+			if rx[1] != "#0" {
+				e.res.Fail(hx.Violation{Kind: "mismatch", What: "the refined unbound-lookup counter of the model is not 0 on an accepted bundle", Case: pc,
+					Expected: "#0", Observed: rx[1]}, "")
+			}
+			if rx[0] != strings.Split(r[0], ",")[0] || strings.Join(rx[2:], " ") != strings.Join(r[5:], " ") {
+				e.res.Fail(hx.Violation{Kind: "mismatch", What: "render_x and render of the model differ in outcome or output", Case: pc,
+					Expected: fmt.Sprint(r), Observed: fmt.Sprint(rx)}, "")
 			}
 		}
 		_ = out
@@ -950,6 +1195,28 @@ var c07Corpus = []struct {
 	{"undeclared name in a quoted data expression", false, "{namespace ns}\n/** @param p */\n{template .t}\n{$p}{call .u data=\"$m\" /}\n{/template}\n/** @param? q */\n{template .u}\n{if $q}y{/if}\n{/template}\n"},
 	{"undeclared name in a msg placeholder", false, "{namespace ns}\n/** @param p */\n{template .t}\n{msg desc=\"d\"}{$p} and {$zz}{/msg}\n{/template}\n"},
 	{"undeclared name in plural", false, "{namespace ns}\n/** @param p */\n{template .t}\n{msg desc=\"d\"}{plural $n}{case 1}one{default}{$p}{/plural}{/msg}\n{/template}\n"},
+	{"let re-bound before it is used", false, "{namespace ns}\n/** @param p */\n{template .t}\n{$p}{let $x: 1 /}{let $x: 2 /}{$x}\n{/template}\n"},
+	{"let used, then re-bound and used", true, "{namespace ns}\n/** @param p */\n{template .t}\n{$p}{let $x: 1 /}{$x}{let $x: 2 /}{$x}\n{/template}\n"},
+	{"let shadowed by a loop variable and never used", false, "{namespace ns}\n/** @param p */\n{template .t}\n{$p}{let $x: 1 /}{foreach $x in [1]}{$x}{/foreach}\n{/template}\n"},
+	{"let used by the list of a loop over the same name", true, "{namespace ns}\n/** @param p */\n{template .t}\n{$p}{let $x: [1] /}{foreach $x in $x}{$x}{/foreach}\n{/template}\n"},
+	{"let of an inner block re-binding an outer let that is used later", true, "{namespace ns}\n/** @param p */\n{template .t}\n{let $x: 1 /}{if $p}{let $x: 2 /}{$x}{/if}{$x}\n{/template}\n"},
+	{"param named ij is never used by $ij", false, "{namespace ns}\n/** @param ij */\n{template .t}\n{$ij.k}\n{/template}\n"},
+	{"$ij needs no declaration", true, "{namespace ns}\n/** @param p */\n{template .t}\n{$p}{$ij.k}\n{/template}\n"},
+	{"index of an outer loop variable inside an inner loop", true, "{namespace ns}\n/** @param p */\n{template .t}\n{foreach $i in $p}{foreach $j in [1]}{index($i)}{$j}{/foreach}{/foreach}\n{/template}\n"},
+	{"index of a loop variable after its loop", false, "{namespace ns}\n/** @param p */\n{template .t}\n{foreach $i in $p}{$i}{/foreach}{index($i)}\n{/template}\n"},
+	{"index of a loop variable in ifempty", false, "{namespace ns}\n/** @param p */\n{template .t}\n{foreach $i in $p}{$i}{ifempty}{index($i)}{/foreach}\n{/template}\n"},
+	{"data expr does not excuse an undeclared explicit param", false, "{namespace ns}\n/** @param p */\n{template .t}\n{call .u data=\"$p\"}{param zz: 1 /}{/call}\n{/template}\n/** @param q */\n{template .u}\n{$q}\n{/template}\n"},
+	{"data=all with an explicit param for what the caller does not declare", true, "{namespace ns}\n/** @param p */\n{template .t}\n{call .u data=\"all\"}{param q: 1 /}{/call}\n{/template}\n/** @param p\n @param q */\n{template .u}\n{$p}{$q}\n{/template}\n"},
+	{"data=all under a let of the forwarded name: the param is still forwarded and used", true, "{namespace ns}\n/** @param p */\n{template .t}\n{let $p: 1 /}{$p}{call .u data=\"all\" /}\n{/template}\n/** @param p */\n{template .u}\n{$p}\n{/template}\n"},
+	{"data=all does not forward a let", false, "{namespace ns}\n/** @param p */\n{template .t}\n{$p}{let $q: 1 /}{$q}{call .u data=\"all\" /}\n{/template}\n/** @param q */\n{template .u}\n{$q}\n{/template}\n"},
+	{"cross-file call by full name, all required params passed", true, "{namespace a.x}\n/** @param p */\n{template .main}\n{call b.y.item}{param q: $p /}{/call}\n{/template}\n=====\n{namespace b.y}\n/** @param q\n @param? r */\n{template .item}\n{$q}{if $r}y{/if}\n{/template}\n"},
+	{"cross-file call by full name, required param missing", false, "{namespace a.x}\n/** @param p */\n{template .main}\n{$p}{call b.y.item}{param r: 1 /}{/call}\n{/template}\n=====\n{namespace b.y}\n/** @param q\n @param? r */\n{template .item}\n{$q}{if $r}y{/if}\n{/template}\n"},
+	{"cross-file data=all forwards what the caller declares", true, "{namespace a.x}\n/** @param q */\n{template .main}\n{call b.y.item data=\"all\" /}\n{/template}\n=====\n{namespace b.y}\n/** @param q */\n{template .item}\n{$q}\n{/template}\n"},
+	{"cross-file: the callee is defined in a later file", true, "{namespace a.x}\n/** @param p */\n{template .main}\n{call a.x.late}{param q: $p /}{/call}\n{/template}\n=====\n{namespace a.x}\n/** @param q */\n{template .late}\n{$q}\n{/template}\n"},
+	{"cross-file: relative call to a template of the same namespace in another file", true, "{namespace a.x}\n/** @param p */\n{template .main}\n{call .late}{param q: $p /}{/call}\n{/template}\n=====\n{namespace a.x}\n/** @param q */\n{template .late}\n{$q}\n{/template}\n"},
+	{"cross-file: relative call does not reach another namespace", false, "{namespace a.x}\n/** @param p */\n{template .main}\n{$p}{call .item /}\n{/template}\n=====\n{namespace b.y}\n{template .item}\nx\n{/template}\n"},
+	{"cross-file: template name defined in two files", false, "{namespace a.x}\n/** @param p */\n{template .t}\n{$p}\n{/template}\n=====\n{namespace a.x}\n/** @param p */\n{template .t}\n{$p}\n{/template}\n"},
+	{"cross-file: a violation in the second file only", false, "{namespace a.x}\n/** @param p */\n{template .t}\n{$p}\n{/template}\n=====\n{namespace b.y}\n/** @param p */\n{template .t}\n{$zz}{$p}\n{/template}\n"},
 	{"let inside msg", true, "{namespace ns}\n/** @param p */\n{template .t}\n{msg desc=\"d\"}{$p} and {$p}{/msg}\n{/template}\n"},
 }
 
@@ -992,10 +1259,18 @@ func runC07(e *env) {
 	for i := 0; i < n; i++ {
 		var tmpls []*gtemplate
 		o := progOpts{depth: 3, directives: true, allParams: true, totalCalls: i%2 == 0, onTemplates: func(ts []*gtemplate) { tmpls = ts },
-			headerDefaults: true, dupShort: i%3 == 0, aliases: i%4 < 2}
+			headerDefaults: true, dupShort: i%3 == 0, aliases: i%4 < 2, scope: i%5 == 1 || i%5 == 3}
 		files, _, _, feats := genBundle(e.rng, o)
 		for f := range feats {
 			e.res.Histogram["feat:"+f]++
+		}
+		e.res.Histogram[fmt.Sprintf("bundle:files=%d", min(len(files), 4))]++
+		{
+			nsOf := map[string]bool{}
+			for _, t := range tmpls {
+				nsOf[t.ns] = true
+			}
+			e.res.Histogram[fmt.Sprintf("bundle:namespaces=%d", min(len(nsOf), 4))]++
 		}
 		trees, err := c07Parse(files)
 		if err != nil {
